@@ -341,7 +341,7 @@ Proof.
   induction d as [|[k v] d IH]; intros req Hn; cbn [inject map fold_left fst snd].
   - destruct (find _ M); reflexivity.
   - inversion Hn as [|? ? Hk Hn']; subst. change (map _ d) with (inject d). rewrite (IH _ Hn').
-    unfold hm_step at 2 4. cbn [fst snd assoc].
+    unfold hm_step. cbn [fst snd assoc].
     destruct (find (fun kv => String.eqb (snd kv) t) M) as [kv0|] eqn:Hf.
     + apply find_snd_some in Hf. destruct Hf as [Hin0 Hs0].
       destruct (String.eqb_spec k (fst kv0)) as [->|Hne].
@@ -488,34 +488,748 @@ Lemma kwargs_pointwise : forall m o d t,
   assoc t (kwargs_of m o d) = cell m o (last_full d) t (assoc (src m o t) d).
 Proof.
   intros m o d t Hn Hv Hr. unfold cell, cellK, src.
-  destruct m as [ws mp|known ranged|known mp sv| |mp|ranged|known ranged]; destruct o;
+  destruct m as [[] []|[] []|[] [] []| |[]|[]|[] []]; destruct o;
     cbn [recipe_of] in Hr |- *; try (exfalso; apply Hr; reflexivity);
-    cbn [kwargs_of planned_names struct_names app];
-    try (apply pw_struct_upload);
-    try (apply pw_struct_all);
-    try (apply pw_struct_pass).
-  - (* TMDownload GetObject *)
-    destruct ranged.
-    + rewrite (pw_struct_ranged _ _ _ _ Hn Hv (range_not_allowed (TMDownload known true))).
-      destruct known; reflexivity.
-    + rewrite pw_struct_all. destruct known; reflexivity.
-  - (* TMCopy HeadObject *)
-    destruct sv.
-    + apply (pw_head_map ["Bucket"; "Key"; "VersionId"] d t Hn). vm_compute. reflexivity.
-    + apply (pw_head_map ["Bucket"; "Key"] d t Hn). vm_compute. reflexivity.
-  - (* TMCopy UploadPartCopy *)
-    apply pw_struct_partcopy.
-  - (* LegUpload CompleteMultipartUpload *)
-    rewrite <- (app_nil_r (S_ _)).
-    change (@nil (string * val)) with (filter (fun kv : string * val => (fun _ : string => false) (fst kv)) (inject d)).
-    apply pw_struct_pass.
-  - (* LegDownload GetObject *)
-    destruct ranged.
-    + apply pw_struct_ranged_legacy.
-    + apply pw_struct_all.
-  - (* PoolDownload GetObject *)
-    destruct ranged.
-    + rewrite (pw_struct_ranged _ _ _ _ Hn Hv (range_not_allowed (PoolDownload known true))).
-      destruct known; reflexivity.
-    + rewrite pw_struct_all. destruct known; reflexivity.
+    cbn [kwargs_of planned_names struct_names app]; unfold filtered_dict.
+  all: try apply pw_struct_upload.
+  all: try apply pw_struct_all.
+  all: try apply pw_struct_pass.
+  all: try apply (pw_struct_pass _ (fun k => negb (mem k CP_CREATE_MULTIPART_BLACKLIST))).
+  all: try apply (pw_struct_pass _ (fun k => mem k LEGACY_UPLOAD_PART_ARGS)).
+  all: try apply pw_struct_partcopy.
+  all: try apply pw_struct_ranged_legacy.
+  all: try (apply (pw_head_map _ d t Hn); vm_compute; reflexivity).
+  all: try (eapply pw_struct_ranged; [exact Hn|exact Hv|vm_compute; reflexivity]).
+  all: rewrite assoc_S_; destruct (mem t _); reflexivity.
 Qed.
+
+(** * Keys of every call are distinct (the keyword arguments form a dictionary) *)
+
+Lemma keys_app : forall (V : Type) (a b : list (string * V)), keys (a ++ b) = keys a ++ keys b.
+Proof. intros. unfold keys. apply map_app. Qed.
+
+Lemma keys_S_ : forall names, keys (S_ names) = names.
+Proof. intros. unfold keys, S_. rewrite map_map. cbn. apply map_id. Qed.
+
+Lemma nodup_app_ : forall (A : Type) (a b : list A),
+  NoDup a -> NoDup b -> (forall x, In x a -> ~ In x b) -> NoDup (a ++ b).
+Proof.
+  intros A a b Ha Hb Hd. induction Ha as [|x a Hx Ha IH]; cbn; [exact Hb|].
+  constructor.
+  - rewrite in_app_iff. intros [H|H]; [auto|]. apply (Hd x); [now left|exact H].
+  - apply IH. intros y Hy. apply Hd. now right.
+Qed.
+
+Lemma in_keys_dset : forall (V : Type) k (v : V) e x,
+  In x (keys (dset k v e)) -> x = k \/ In x (keys e).
+Proof.
+  intros V k v e x. induction e as [|[k' v'] e IH]; cbn.
+  - intros [<-|[]]. now left.
+  - destruct (String.eqb_spec k' k) as [->|_]; cbn.
+    + intros [<-|H]; auto.
+    + intros [<-|H]; auto. destruct (IH H); auto.
+Qed.
+
+Lemma nodup_dset : forall (V : Type) k (v : V) e, NoDup (keys e) -> NoDup (keys (dset k v e)).
+Proof.
+  intros V k v e. induction e as [|[k' v'] e IH]; cbn; intros Hn.
+  - constructor; [easy|constructor].
+  - inversion Hn as [|? ? Hk Hn']; subst.
+    destruct (String.eqb_spec k' k) as [->|Hne]; cbn.
+    + constructor; assumption.
+    + constructor; [|auto]. intros Hin. apply in_keys_dset in Hin. destruct Hin as [->|Hin]; auto.
+Qed.
+
+Lemma in_keys_filter : forall (V : Type) (f : string * V -> bool) e x,
+  In x (keys (filter f e)) -> In x (keys e).
+Proof.
+  intros V f e x. unfold keys. rewrite !in_map_iff. intros (kv & E & H).
+  apply filter_In in H. exists kv. tauto.
+Qed.
+
+Lemma nodup_filter : forall (V : Type) (f : string * V -> bool) e,
+  NoDup (keys e) -> NoDup (keys (filter f e)).
+Proof.
+  intros V f e. induction e as [|kv e IH]; cbn; intros Hn; [constructor|].
+  inversion Hn as [|? ? Hk Hn']; subst. destruct (f kv); cbn; [|auto].
+  constructor; [|auto]. intros Hin. apply Hk. eapply in_keys_filter. exact Hin.
+Qed.
+
+Lemma fold_dset_keys : forall (V W : Type) (g : list (string * V) -> W -> list (string * V))
+    (extra : list string),
+  (forall e w, NoDup (keys e) -> NoDup (keys (g e w))) ->
+  (forall e w x, In x (keys (g e w)) -> In x (keys e) \/ In x extra) ->
+  forall l e, NoDup (keys e) ->
+    NoDup (keys (fold_left g l e)) /\
+    (forall x, In x (keys (fold_left g l e)) -> In x (keys e) \/ In x extra).
+Proof.
+  intros V W g extra G1 G2. induction l as [|w l IH]; intros e Hn; cbn [fold_left].
+  - split; auto.
+  - destruct (IH (g e w) (G1 _ _ Hn)) as [A B]. split; [exact A|].
+    intros x Hx. destruct (B x Hx) as [H|H]; [|now right]. exact (G2 _ _ _ H).
+Qed.
+
+Lemma rewrite_keys : forall e, NoDup (keys e) ->
+  NoDup (keys (full_object_rewrite e)) /\
+  (forall x, In x (keys (full_object_rewrite e)) -> In x (keys e) \/ In x [CT; CA]).
+Proof.
+  intros e Hn. unfold full_object_rewrite. apply fold_dset_keys; [| |exact Hn].
+  - intros e0 c H. unfold rewrite_step. destruct (has c e0); [|exact H]. now do 2 apply nodup_dset.
+  - intros e0 c x. unfold rewrite_step. destruct (has c e0); [|now left].
+    intros H. apply in_keys_dset in H. destruct H as [->|H]; [right; cbn; tauto|].
+    apply in_keys_dset in H. destruct H as [->|H]; [right; cbn; tauto|now left].
+Qed.
+
+Lemma eff_upload_keys : forall ws mp d, NoDup (keys d) ->
+  NoDup (keys (eff_upload ws mp d)) /\
+  (forall x, In x (keys (eff_upload ws mp d)) -> In x (keys d) \/ In x [CT; CA]).
+Proof.
+  intros ws mp d Hn.
+  assert (E1 : NoDup (keys (e1_of ws d)) /\
+               (forall x, In x (keys (e1_of ws d)) -> In x (keys d) \/ In x [CT; CA])).
+  { unfold e1_of. destruct ws; [|rewrite keys_inject; auto].
+    unfold set_default_checksum_algorithm. destruct (existsb _ _); [rewrite keys_inject; auto|].
+    unfold setdefault. destruct (has _ _); [rewrite keys_inject; auto|]. split.
+    - apply nodup_dset. now rewrite keys_inject.
+    - intros x H. apply in_keys_dset in H. rewrite keys_inject in H.
+      destruct H as [->|H]; [right; cbn; tauto|now left]. }
+  change (eff_upload ws mp d) with (if mp then full_object_rewrite (e1_of ws d) else e1_of ws d).
+  destruct mp; [|exact E1]. destruct E1 as [A B]. destruct (rewrite_keys _ A) as [C D].
+  split; [exact C|]. intros x Hx. destruct (D x Hx) as [H|H]; [exact (B x H)|now right].
+Qed.
+
+Lemma update_keys : forall (V : Type) (b a : list (string * V)), NoDup (keys a) ->
+  NoDup (keys (update a b)) /\
+  (forall x, In x (keys (update a b)) -> In x (keys a) \/ In x (keys b)).
+Proof.
+  intros V b. unfold update. induction b as [|[k v] b IH]; intros a Hn; cbn [fold_left fst snd].
+  - split; auto.
+  - destruct (IH _ (nodup_dset _ k v _ Hn)) as [A B]. split; [exact A|].
+    intros x Hx. destruct (B x Hx) as [H|H]; [|right; now right].
+    apply in_keys_dset in H. destruct H as [->|H]; [right; now left|now left].
+Qed.
+
+Lemma head_map_keys : forall d st, NoDup (keys st) ->
+  NoDup (keys (fold_left head_map_step (inject d) st)) /\
+  (forall x, In x (keys (fold_left head_map_step (inject d) st)) ->
+             In x (keys st) \/ In x (map snd CP_HEAD_MAPPING)).
+Proof.
+  intros d st Hn. apply fold_dset_keys; [| |exact Hn].
+  - intros e kv H. unfold head_map_step. destruct (assoc _ _); [now apply nodup_dset|exact H].
+  - intros e kv x. unfold head_map_step. destruct (assoc (fst kv) CP_HEAD_MAPPING) as [t|] eqn:Ha; [|now left].
+    intros H. apply in_keys_dset in H. destruct H as [->|H]; [|now left].
+    right. apply assoc_In in Ha. change t with (snd (fst kv, t)). now apply in_map.
+Qed.
+
+Lemma struct_nodup : forall m o, NoDup (struct_names m o).
+Proof.
+  intros m o. destruct o; try destruct m as [| |? ? []| | | |]; cbn;
+    repeat (constructor; [cbn; intuition discriminate|]); constructor.
+Qed.
+
+Lemma planned_not_allowed : forall m o t,
+  In t (planned_names m o) -> ~ In t (allowed_of m).
+Proof.
+  intros m o t Ht Ha.
+  pose proof (struct_not_allowed m o (all_modes_complete m) (all_ops_complete o)) as H.
+  rewrite forallb_forall in H. specialize (H _ Ht). apply negb_true_iff in H.
+  apply mem_false_notin in H. auto.
+Qed.
+
+Lemma struct_in_planned : forall m o t, In t (struct_names m o) -> In t (planned_names m o).
+Proof. intros. unfold planned_names. apply in_or_app. now left. Qed.
+
+Lemma ct_ca_not_struct : forall m o t, In t [CT; CA] -> ~ In t (struct_names m o).
+Proof.
+  intros m o t [<-|[<-|[]]] H; destruct o; try destruct m as [| |? ? []| | | |];
+    cbn in H; intuition discriminate.
+Qed.
+
+Lemma kwargs_nodup : forall m o d,
+  NoDup (keys d) -> validate d (allowed_of m) = true -> NoDup (keys (kwargs_of m o d)).
+Proof.
+  intros m o d Hn Hv.
+  assert (Hd : forall x, In x (struct_names m o) -> ~ In x (keys d)).
+  { intros x Hx Hk. apply (planned_not_allowed m o x (struct_in_planned _ _ _ Hx)).
+    eapply valid_keys; eauto. }
+  assert (Base : forall f, NoDup (keys (S_ (struct_names m o) ++ filter f (inject d)))).
+  { intros f. rewrite keys_app, keys_S_. apply nodup_app_.
+    - apply struct_nodup.
+    - apply nodup_filter. now rewrite keys_inject.
+    - intros x Hx Hf. apply in_keys_filter in Hf. rewrite keys_inject in Hf. exact (Hd x Hx Hf). }
+  assert (BaseAll : NoDup (keys (S_ (struct_names m o) ++ inject d))).
+  { rewrite keys_app, keys_S_, keys_inject. apply nodup_app_; [apply struct_nodup|exact Hn|exact Hd]. }
+  assert (Up : forall ws mp f, NoDup (keys (S_ (struct_names m o) ++ filter f (eff_upload ws mp d)))).
+  { intros ws mp f. destruct (eff_upload_keys ws mp d Hn) as [A B].
+    rewrite keys_app, keys_S_. apply nodup_app_.
+    - apply struct_nodup.
+    - now apply nodup_filter.
+    - intros x Hx Hf. apply in_keys_filter in Hf. destruct (B x Hf) as [H|H].
+      + exact (Hd x Hx H).
+      + exact (ct_ca_not_struct m o x H Hx). }
+  assert (Ranged : mem "Range" (struct_names m o) = false ->
+                   NoDup (keys (S_ (struct_names m o) ++ update [("Range", P)] (inject d)))).
+  { intros Hr. destruct (update_keys _ (inject d) [("Range", P)]) as [A B].
+    { cbn. constructor; [easy|constructor]. }
+    rewrite keys_app, keys_S_. apply nodup_app_; [apply struct_nodup|exact A|].
+    intros x Hx Hu. destruct (B x Hu) as [H|H].
+    - cbn in H. destruct H as [<-|[]]. apply mem_false_notin in Hr. auto.
+    - rewrite keys_inject in H. exact (Hd x Hx H). }
+  destruct m as [ws mp|known ranged|known mp sv| |mp|ranged|known ranged]; destruct o;
+    cbn [kwargs_of]; unfold filtered_dict;
+    try apply Base; try apply BaseAll; try apply Up; try (constructor; fail).
+  - destruct ranged; [apply Ranged; reflexivity|apply BaseAll].
+  - apply head_map_keys. rewrite keys_S_. apply struct_nodup.
+  - (* UploadPartCopy *)
+    rewrite keys_app, keys_S_. apply nodup_app_.
+    + apply struct_nodup.
+    + apply nodup_dset. apply nodup_filter. now rewrite keys_inject.
+    + intros x Hx Hf. apply in_keys_dset in Hf. destruct Hf as [->|Hf].
+      * cbn in Hx. intuition discriminate.
+      * apply in_keys_filter in Hf. rewrite keys_inject in Hf. exact (Hd x Hx Hf).
+  - rewrite keys_S_. apply struct_nodup.
+  - destruct ranged.
+    + rewrite keys_app, keys_S_, keys_app, keys_S_, keys_inject. apply nodup_app_.
+      * apply struct_nodup.
+      * apply nodup_app_; [constructor; [easy|constructor]|exact Hn|].
+        intros x [<-|[]] Hk. apply (planned_not_allowed (LegDownload true) GetObject "Range").
+        { cbn. tauto. } eapply valid_keys; eauto.
+      * intros x Hx Hi. apply in_app_or in Hi. destruct Hi as [[<-|[]]|Hi].
+        { cbn in Hx. intuition discriminate. } exact (Hd x Hx Hi).
+    + cbn [app]. apply BaseAll.
+  - destruct ranged; [apply Ranged; reflexivity|apply BaseAll].
+Qed.
+
+(** * The plan and the whole route *)
+
+Lemma in_multipart_ops : forall part n o,
+  In o (multipart_ops part n) -> o = CreateMultipartUpload \/ o = part \/ o = CompleteMultipartUpload.
+Proof.
+  intros part n o. unfold multipart_ops. cbn [In]. rewrite in_app_iff. cbn [In].
+  intros [<-|H]; [auto|]. destruct H as [H|H].
+  - right; left. now apply repeat_spec in H.
+  - destruct H as [<-|H]; [auto|destruct H].
+Qed.
+
+Lemma in_get_ops : forall r n o, In o (get_ops r n) -> o = GetObject.
+Proof.
+  intros [] n o; cbn.
+  - apply repeat_spec.
+  - intros [<-|[]]. reflexivity.
+Qed.
+
+Lemma plan_ops : forall m n o, In o (plan m n) -> In o (ops_of m).
+Proof.
+  intros m n o. unfold ops_of.
+  destruct m as [ws []|[] r|[] [] sv| |[]|r|[] r]; cbn [plan head_ops app];
+    intros H;
+    repeat match goal with
+    | H : In _ (_ :: _) |- _ => destruct H as [<-|H]
+    | H : In _ (_ ++ _) |- _ => apply in_app_or in H; destruct H as [H|H]
+    | H : In _ (multipart_ops _ _) |- _ => apply in_multipart_ops in H; destruct H as [ -> | [ -> | -> ] ]
+    | H : In _ (get_ops _ _) |- _ => apply in_get_ops in H; subst
+    | H : In _ [] |- _ => destruct H
+    end;
+    try (destruct r); cbn; tauto.
+Qed.
+
+Lemma ops_recipe : forall m o, In o (ops_of m) -> recipe_of m o <> RcNone.
+Proof.
+  intros m o H.
+  destruct m as [[] []|[] []|[] [] []| |[]|[]|[] []]; destruct o; cbn in H |- *;
+    try discriminate; intuition discriminate.
+Qed.
+
+Lemma last_full_in_LFS : forall (V : Type) (d : list (string * V)), In (last_full d) LFS.
+Proof.
+  intros V d. unfold last_full, LFS. destruct (find _ _) as [c|] eqn:Hf; [|now left].
+  right. apply find_some in Hf. destruct Hf as [Hin _]. apply in_rev in Hin. now apply in_map.
+Qed.
+
+Lemma route_some : forall m n d calls, route m n d = Some calls ->
+  validate d (allowed_of m) = true /\ calls = map (fun o => (o, kwargs_of m o d)) (plan m n).
+Proof.
+  intros m n d calls. unfold route. destruct (validate d (allowed_of m)); [|discriminate].
+  intros [= <-]. auto.
+Qed.
+
+Theorem route_pointwise_lemma : forall m n d calls,
+  NoDup (keys d) -> route m n d = Some calls ->
+  map fst calls = plan m n /\
+  In (last_full d) LFS /\
+  forall o kw, In (o, kw) calls ->
+    In o (ops_of m) /\ NoDup (keys kw) /\
+    forall t, assoc t kw = cell m o (last_full d) t (assoc (src m o t) d).
+Proof.
+  intros m n d calls Hn Hr. apply route_some in Hr. destruct Hr as [Hv ->].
+  split; [rewrite map_map; cbn; apply map_id|]. split; [apply last_full_in_LFS|].
+  intros o kw Hin. apply in_map_iff in Hin. destruct Hin as (o' & [= -> <-] & Hp).
+  pose proof (plan_ops _ _ _ Hp) as Ho. split; [exact Ho|]. split.
+  - now apply kwargs_nodup.
+  - intros t. apply kwargs_pointwise; auto. now apply ops_recipe.
+Qed.
+
+(** * Rejection *)
+
+Lemma forallb_false_exists : forall (A : Type) (f : A -> bool) l,
+  forallb f l = false -> exists x, In x l /\ f x = false.
+Proof.
+  intros A f l. induction l as [|x l IH]; cbn; [discriminate|].
+  destruct (f x) eqn:E; cbn.
+  - intros H. destruct (IH H) as (y & Hy & Hf). exists y. auto.
+  - intros _. exists x. auto.
+Qed.
+
+Lemma rejected_iff : forall m n d,
+  route m n d = None <-> exists k, In k (keys d) /\ ~ In k (allowed_of m).
+Proof.
+  intros m n d. unfold route. destruct (validate d (allowed_of m)) eqn:Hv; split.
+  - discriminate.
+  - intros (k & Hk & Hna). exfalso. apply Hna. eapply valid_keys; eauto.
+  - intros _. unfold validate in Hv. apply forallb_false_exists in Hv.
+    destruct Hv as ([k v] & Hin & Hf). exists k. split.
+    + change k with (fst (k, v)). now apply in_map.
+    + apply mem_false_notin. exact Hf.
+  - reflexivity.
+Qed.
+
+(** * Values *)
+
+Lemma cell_user : forall m o lf t x v, cell m o lf t x = Some (U v) -> x = Some v.
+Proof.
+  intros m o lf t x v. unfold cell. destruct (cellK _ _ _ _ _); cbn; try discriminate.
+  destruct x; cbn; [intros [= ->]; reflexivity|discriminate].
+Qed.
+
+Lemma values_unmodified_lemma : forall m n d calls,
+  NoDup (keys d) -> route m n d = Some calls ->
+  forall o kw, In (o, kw) calls ->
+  forall t v, In (t, U v) kw -> In (src m o t, v) d.
+Proof.
+  intros m n d calls Hn Hr o kw Hin t v Ht.
+  destruct (route_pointwise_lemma _ _ _ _ Hn Hr) as (_ & _ & H).
+  destruct (H _ _ Hin) as (_ & Hnd & Hpw).
+  apply (In_assoc_nodup _ _ _ _ Hnd) in Ht. rewrite Hpw in Ht.
+  apply cell_user in Ht. now apply assoc_In.
+Qed.
+
+(** * Nothing unknown to an operation is sent to it *)
+
+Lemma src_pass : forall m o t, recipe_of m o <> RcHeadMap -> src m o t = t.
+Proof. intros m o t H. unfold src. destruct (recipe_of m o); try reflexivity. contradiction. Qed.
+
+Lemma cellK_universe : forall m o lf t p,
+  cellK m o lf t p <> RAbsent ->
+  (p = true -> In (src m o t) (allowed_of m)) -> In t (universe m o).
+Proof.
+  intros m o lf t p. unfold cellK, universe. rewrite !in_app_iff.
+  destruct (mem t (planned_names m o)) eqn:Hp; [intros _ _; left; now apply mem_In|].
+  destruct (recipe_of m o) as [|pf|ws mp pf|] eqn:Hr.
+  - intros H; contradiction.
+  - assert (Hs : src m o t = t) by (apply src_pass; rewrite Hr; discriminate).
+    rewrite Hs. destruct (pf t); [|intros H; contradiction].
+    destruct p; [|intros H; contradiction]. intros _ H. right; left. auto.
+  - assert (Hs : src m o t = t) by (apply src_pass; rewrite Hr; discriminate).
+    rewrite Hs. destruct (pf t); [|intros H; contradiction].
+    unfold eff_res.
+    destruct (String.eqb_spec t "ChecksumType") as [->|_]; [intros _ _; do 3 right; cbn; tauto|].
+    destruct (String.eqb_spec t "ChecksumAlgorithm") as [->|_]; [intros _ _; do 3 right; cbn; tauto|].
+    destruct p; [|intros H; contradiction]. intros _ H. right; left. auto.
+  - destruct (mem t (map snd CP_HEAD_MAPPING)) eqn:Hm; [|intros H; contradiction].
+    intros _ _. right; right; left. now apply mem_In.
+Qed.
+
+Definition nu_ok (m : mode) (o : op) (t : string) (lf : option string) (p : bool) : bool :=
+  implb (negb (res_absent (cellK m o lf t p)) && implb p (mem (src m o t) (allowed_of m)))
+        (mem t (SHAPE o)).
+
+Lemma nu_table :
+  forallb (fun m => forallb (fun o => forallb (fun t => forallb (fun lf => forallb (fun p =>
+    nu_ok m o t lf p) BOOLS) LFS) (universe m o)) (ops_of m)) ALL_MODES = true.
+Proof. vm_compute. reflexivity. Qed.
+
+Lemma bools_complete : forall b, In b BOOLS.
+Proof. destruct b; cbn; tauto. Qed.
+
+Lemma nothing_unknown_lemma : forall m n d calls,
+  NoDup (keys d) -> route m n d = Some calls ->
+  forall o kw, In (o, kw) calls -> forall t v, In (t, v) kw -> In t (SHAPE o).
+Proof.
+  intros m n d calls Hn Hr o kw Hin t v Ht.
+  destruct (route_pointwise_lemma _ _ _ _ Hn Hr) as (_ & Hlf & H).
+  destruct (H _ _ Hin) as (Ho & _ & Hpw).
+  apply route_some in Hr. destruct Hr as [Hv _].
+  apply In_assoc_some in Ht. destruct Ht as [w Hw]. rewrite Hpw in Hw. unfold cell in Hw.
+  set (p := match assoc (src m o t) d with Some _ => true | None => false end) in *.
+  assert (Hna : cellK m o (last_full d) t p <> RAbsent).
+  { intros E. rewrite E in Hw. discriminate. }
+  assert (Hp : p = true -> In (src m o t) (allowed_of m)).
+  { subst p. destruct (assoc (src m o t) d) eqn:Ha; [|discriminate]. intros _.
+    apply assoc_In in Ha. eapply valid_keys; [exact Hv|].
+    change (src m o t) with (fst (src m o t, z)). now apply in_map. }
+  pose proof (cellK_universe _ _ _ _ _ Hna Hp) as Hu.
+  pose proof nu_table as T. rewrite forallb_forall in T.
+  specialize (T _ (all_modes_complete m)). rewrite forallb_forall in T.
+  specialize (T _ Ho). rewrite forallb_forall in T.
+  specialize (T _ Hu). rewrite forallb_forall in T.
+  specialize (T _ Hlf). rewrite forallb_forall in T.
+  specialize (T _ (bools_complete p)). unfold nu_ok in T.
+  apply mem_In.
+  destruct (cellK m o (last_full d) t p); [contradiction| | |]; cbn [res_absent negb andb] in T.
+  all: destruct p; cbn [implb] in T.
+  all: try (specialize (Hp eq_refl); apply mem_In in Hp; rewrite Hp in T; cbn in T).
+  all: destruct (mem t (SHAPE o)); [reflexivity|discriminate T].
+Qed.
+
+(** * The routing table against the installed shapes *)
+
+Lemma res_eqb_eq : forall a b, res_eqb a b = true -> a = b.
+Proof.
+  intros [] []; cbn; try discriminate; try reflexivity.
+  intros H. apply String.eqb_eq in H. now subst.
+Qed.
+
+Lemma fwd_eqb_eq : forall a b, fwd_eqb a b = true -> a = b.
+Proof.
+  induction a as [|[t r] a IH]; intros [|[t' r'] b]; cbn; try discriminate; [reflexivity|].
+  intros H. apply andb_prop in H. destruct H as [H H3]. apply andb_prop in H. destruct H as [H1 H2].
+  apply String.eqb_eq in H1. apply res_eqb_eq in H2. subst. f_equal. auto.
+Qed.
+
+Definition table_ok (m : mode) (o : op) (a : string) (lf : option string) : bool :=
+  fwd_eqb (forwarded m o lf a) (spec_forwarded m o lf a).
+
+Lemma table_main :
+  forallb (fun m => forallb (fun o => forallb (fun a => forallb (fun lf =>
+    table_ok m o a lf) LFS) (allowed_of m)) (ops_of m)) MAIN_MODES = true.
+Proof. vm_compute. reflexivity. Qed.
+
+Lemma table_legacy :
+  forallb (fun m => forallb (fun o => forallb (fun a => forallb (fun lf =>
+    f6_cell m o a || table_ok m o a lf) LFS) (allowed_of m)) (ops_of m)) LEGACY_MODES = true.
+Proof. vm_compute. reflexivity. Qed.
+
+Lemma table_f6 :
+  forallb (fun a => forallb (fun lf =>
+    mem a (allowed_of (LegUpload true)) && mem a (SHAPE CompleteMultipartUpload)
+    && fwd_eqb (forwarded (LegUpload true) CompleteMultipartUpload lf a) []
+    && fwd_eqb (spec_forwarded (LegUpload true) CompleteMultipartUpload lf a) [(a, RUser)]) LFS)
+    F6_NAMES = true.
+Proof. vm_compute. reflexivity. Qed.
+
+Lemma route_table_exact_lemma : forall m o a lf,
+  In m MAIN_MODES -> In o (ops_of m) -> In a (allowed_of m) -> In lf LFS ->
+  forwarded m o lf a = spec_forwarded m o lf a.
+Proof.
+  intros m o a lf Hm Ho Ha Hl. pose proof table_main as T.
+  rewrite forallb_forall in T. specialize (T _ Hm).
+  rewrite forallb_forall in T. specialize (T _ Ho).
+  rewrite forallb_forall in T. specialize (T _ Ha).
+  rewrite forallb_forall in T. specialize (T _ Hl).
+  now apply fwd_eqb_eq.
+Qed.
+
+Lemma route_table_legacy_lemma : forall m o a lf,
+  In m LEGACY_MODES -> In o (ops_of m) -> In a (allowed_of m) -> In lf LFS ->
+  f6_cell m o a = false ->
+  forwarded m o lf a = spec_forwarded m o lf a.
+Proof.
+  intros m o a lf Hm Ho Ha Hl Hf. pose proof table_legacy as T.
+  rewrite forallb_forall in T. specialize (T _ Hm).
+  rewrite forallb_forall in T. specialize (T _ Ho).
+  rewrite forallb_forall in T. specialize (T _ Ha).
+  rewrite forallb_forall in T. specialize (T _ Hl).
+  rewrite Hf in T. now apply fwd_eqb_eq.
+Qed.
+
+Lemma f6_lemma : forall a lf, In a F6_NAMES -> In lf LFS ->
+  In a (allowed_of (LegUpload true)) /\ In a (SHAPE CompleteMultipartUpload) /\
+  forwarded (LegUpload true) CompleteMultipartUpload lf a = [] /\
+  spec_forwarded (LegUpload true) CompleteMultipartUpload lf a = [(a, RUser)].
+Proof.
+  intros a lf Ha Hl. pose proof table_f6 as T.
+  rewrite forallb_forall in T. specialize (T _ Ha).
+  rewrite forallb_forall in T. specialize (T _ Hl).
+  apply andb_prop in T. destruct T as [T T4]. apply andb_prop in T. destruct T as [T T3].
+  apply andb_prop in T. destruct T as [T1 T2].
+  repeat split; try (now apply mem_In); now apply fwd_eqb_eq.
+Qed.
+
+(** [forwarded] is exactly the set of slots of a call that the user's
+    argument [a] feeds. *)
+Lemma forwarded_sound : forall m o lf a t r,
+  In (t, r) (forwarded m o lf a) -> src m o t = a /\ cellK m o lf t true = r /\ r <> RAbsent.
+Proof.
+  intros m o lf a t r H. unfold forwarded in H. apply in_flat_map in H.
+  destruct H as (t' & _ & H).
+  destruct (String.eqb_spec (src m o t') a) as [E|_]; cbn [andb] in H; [|destruct H].
+  destruct (res_absent (cellK m o lf t' true)) eqn:Ea; cbn [negb] in H; [destruct H|].
+  destruct H as [[= <- <-]|[]]. repeat split; auto. intros E'. rewrite E' in Ea. discriminate.
+Qed.
+
+Lemma src_cases : forall m o t, src m o t = t \/ fwd_name m o (src m o t) = t.
+Proof.
+  intros m o t. unfold src, fwd_name. destruct (recipe_of m o); auto.
+  destruct (find _ CP_HEAD_MAPPING) as [kv|] eqn:Hf; [|now left]. right.
+  apply find_snd_some in Hf. destruct Hf as [Hin <-].
+  pose proof head_map_ok as HM. unfold map_ok in HM. apply andb_prop in HM. destruct HM as [HM _].
+  rewrite forallb_forall in HM. specialize (HM _ Hin).
+  destruct (assoc (fst kv) CP_HEAD_MAPPING); [|discriminate]. now apply String.eqb_eq in HM.
+Qed.
+
+Lemma forwarded_complete : forall m o lf t,
+  cellK m o lf t true <> RAbsent -> In (t, cellK m o lf t true) (forwarded m o lf (src m o t)).
+Proof.
+  intros m o lf t Hna. unfold forwarded. apply in_flat_map. exists t. split.
+  - destruct (src_cases m o t) as [E|E].
+    + rewrite E. destruct (String.eqb (fwd_name m o t) t); cbn; tauto.
+    + rewrite E. destruct (String.eqb_spec t (src m o t)) as [<-|_]; cbn; tauto.
+  - rewrite String.eqb_refl. cbn [andb].
+    destruct (cellK m o lf t true); cbn; tauto.
+Qed.
+
+(** End-to-end, for every dictionary: what the specification demands for a
+    bound argument is in the call, and every user value in a call is demanded
+    by the specification. *)
+Definition good_cell (m : mode) (o : op) (a : string) : Prop :=
+  In m MAIN_MODES \/ (In m LEGACY_MODES /\ f6_cell m o a = false).
+
+Lemma modes_split : forall m, In m MAIN_MODES \/ In m LEGACY_MODES.
+Proof. intros m. apply in_app_or. apply all_modes_complete. Qed.
+
+Lemma route_exact_forward_lemma : forall m n d calls,
+  NoDup (keys d) -> route m n d = Some calls ->
+  forall o kw, In (o, kw) calls ->
+  forall a v, assoc a d = Some v -> good_cell m o a ->
+  forall t r, In (t, r) (spec_forwarded m o (last_full d) a) -> assoc t kw = interp r (Some v).
+Proof.
+  intros m n d calls Hn Hr o kw Hin a v Ha Hg t r Hs.
+  destruct (route_pointwise_lemma _ _ _ _ Hn Hr) as (_ & Hlf & H).
+  destruct (H _ _ Hin) as (Ho & _ & Hpw).
+  apply route_some in Hr. destruct Hr as [Hv _].
+  assert (Hal : In a (allowed_of m)).
+  { eapply valid_keys; [exact Hv|]. apply assoc_In in Ha. change a with (fst (a, v)). now apply in_map. }
+  assert (E : forwarded m o (last_full d) a = spec_forwarded m o (last_full d) a).
+  { destruct Hg as [Hm|[Hm Hf]].
+    - now apply route_table_exact_lemma.
+    - now apply route_table_legacy_lemma. }
+  rewrite <- E in Hs. apply forwarded_sound in Hs. destruct Hs as (Hsrc & Hc & _).
+  rewrite Hpw, Hsrc, Ha. unfold cell. now rewrite Hc.
+Qed.
+
+Lemma route_exact_backward_lemma : forall m n d calls,
+  NoDup (keys d) -> route m n d = Some calls ->
+  forall o kw, In (o, kw) calls ->
+  forall t v, In (t, U v) kw ->
+    In (src m o t, v) d /\ In (t, RUser) (spec_forwarded m o (last_full d) (src m o t)).
+Proof.
+  intros m n d calls Hn Hr o kw Hin t v Ht.
+  split; [eapply values_unmodified_lemma; eauto|].
+  destruct (route_pointwise_lemma _ _ _ _ Hn Hr) as (_ & Hlf & H).
+  destruct (H _ _ Hin) as (Ho & Hnd & Hpw).
+  apply route_some in Hr. destruct Hr as [Hv _].
+  apply (In_assoc_nodup _ _ _ _ Hnd) in Ht. rewrite Hpw in Ht.
+  pose proof (cell_user _ _ _ _ _ _ Ht) as Hx. rewrite Hx in Ht. unfold cell in Ht. cbn [is_some] in Ht.
+  assert (Hc : cellK m o (last_full d) t true = RUser).
+  { destruct (cellK m o (last_full d) t true); cbn in Ht; try discriminate. reflexivity. }
+  assert (Hal : In (src m o t) (allowed_of m)).
+  { eapply valid_keys; [exact Hv|]. apply assoc_In in Hx.
+    change (src m o t) with (fst (src m o t, v)). now apply in_map. }
+  assert (Hf : In (t, RUser) (forwarded m o (last_full d) (src m o t))).
+  { rewrite <- Hc. apply forwarded_complete. rewrite Hc. discriminate. }
+  destruct (modes_split m) as [Hm|Hm].
+  - now rewrite <- (route_table_exact_lemma m o _ _ Hm Ho Hal Hlf).
+  - destruct (f6_cell m o (src m o t)) eqn:Hf6.
+    + exfalso. destruct m as [| | | |[]| |]; try discriminate Hf6; destruct o; try discriminate Hf6.
+      cbn [f6_cell] in Hf6. apply mem_In in Hf6.
+      destruct (f6_lemma _ _ Hf6 Hlf) as (_ & _ & E & _). rewrite E in Hf. destruct Hf.
+    + now rewrite <- (route_table_legacy_lemma m o _ _ Hm Ho Hal Hlf Hf6).
+Qed.
+
+(** * Checksum rules *)
+
+Definition fo_ok (ws : bool) (c : string) (o : op) (p : bool) : bool :=
+  let m := TMUpload ws true in
+  res_eqb (cellK m o (Some c) "ChecksumType" p)
+          (if mem "ChecksumType" (SHAPE o) then RLit "FULL_OBJECT" else RAbsent)
+  && res_eqb (cellK m o (Some c) "ChecksumAlgorithm" p)
+             (if mem "ChecksumAlgorithm" (SHAPE o) then RLit (sdrop 8 c) else RAbsent)
+  && String.eqb c ("Checksum" ++ sdrop 8 c)
+  && is_full_checksum_name c
+  && mem c (allowed_of m).
+
+Definition fo_names_ok (ws mp : bool) (lf : option string) (c : string) : bool :=
+  let m := TMUpload ws mp in
+  forallb (fun o => res_eqb (cellK m o lf c true)
+                            (if mem c (SHAPE o) && negb (is_upload_part o) then RUser else RAbsent))
+          (ops_of m).
+
+Definition fo_single_ok (ws : bool) (c : string) (p : bool) : bool :=
+  let m := TMUpload ws false in
+  res_eqb (cellK m PutObject (Some c) "ChecksumType" p) RAbsent
+  && res_eqb (cellK m PutObject (Some c) "ChecksumAlgorithm" p) (if p then RUser else RAbsent).
+
+Lemma fo_table :
+  forallb (fun ws => forallb (fun c =>
+    forallb (fun p => forallb (fun o => fo_ok ws c o p) (ops_of (TMUpload ws true))
+                      && fo_single_ok ws c p) BOOLS
+    && forallb (fun mp => forallb (fun lf => fo_names_ok ws mp lf c) LFS) BOOLS)
+    FULL_OBJECT_CHECKSUM_ARGS) BOOLS
+  && forallb (fun a => implb (is_full_checksum_name a) (mem a FULL_OBJECT_CHECKSUM_ARGS))
+             TM_ALLOWED_UPLOAD_ARGS = true.
+Proof. vm_compute. reflexivity. Qed.
+
+Definition crc_ok (m : mode) (o : op) (lf : option string) (p : bool) : bool :=
+  match m with
+  | TMUpload ws mp =>
+      implb (mem "ChecksumAlgorithm" (SHAPE o) && negb (is_some lf))
+            (res_eqb (cellK m o lf "ChecksumAlgorithm" p)
+                     (if p then RUser else if ws then RLit "CRC32" else RAbsent))
+  | _ => res_eqb (cellK m o lf "ChecksumAlgorithm" false) RAbsent
+  end.
+
+Lemma crc_table :
+  forallb (fun m => forallb (fun o => forallb (fun lf => forallb (fun p =>
+    crc_ok m o lf p) BOOLS) LFS) (ops_of m)) ALL_MODES
+  && String.eqb DEFAULT_CHECKSUM_ALGORITHM "CRC32" = true.
+Proof. vm_compute. reflexivity. Qed.
+
+(** Readable forms of the two finite checksum tables. *)
+
+Lemma last_full_none : forall (V : Type) (d : list (string * V)),
+  last_full d = None <-> forall c, In c FULL_OBJECT_CHECKSUM_ARGS -> has c d = false.
+Proof.
+  intros V d. unfold last_full. split.
+  - intros H c Hc. apply in_rev in Hc. exact (find_none _ _ H _ Hc).
+  - intros H. destruct (find _ _) as [c|] eqn:Hf; [|reflexivity].
+    apply find_some in Hf. destruct Hf as [Hin Hh]. apply in_rev in Hin.
+    rewrite (H _ Hin) in Hh. discriminate.
+Qed.
+
+Lemma last_full_some : forall (V : Type) (d : list (string * V)) c,
+  last_full d = Some c -> In c FULL_OBJECT_CHECKSUM_ARGS /\ has c d = true.
+Proof.
+  intros V d c H. unfold last_full in H. apply find_some in H. destruct H as [Hin Hh].
+  apply in_rev in Hin. auto.
+Qed.
+
+Lemma full_object_cells : forall ws c, In c FULL_OBJECT_CHECKSUM_ARGS ->
+  (is_full_checksum_name c = true /\ c = ("Checksum" ++ sdrop 8 c)%string /\ In c TM_ALLOWED_UPLOAD_ARGS) /\
+  (forall o p, In o (ops_of (TMUpload ws true)) ->
+     cellK (TMUpload ws true) o (Some c) "ChecksumType" p =
+       (if mem "ChecksumType" (SHAPE o) then RLit "FULL_OBJECT" else RAbsent) /\
+     cellK (TMUpload ws true) o (Some c) "ChecksumAlgorithm" p =
+       (if mem "ChecksumAlgorithm" (SHAPE o) then RLit (sdrop 8 c) else RAbsent)) /\
+  (forall mp lf o, In lf LFS -> In o (ops_of (TMUpload ws mp)) ->
+     cellK (TMUpload ws mp) o lf c true =
+       (if mem c (SHAPE o) && negb (is_upload_part o) then RUser else RAbsent)) /\
+  (forall p, cellK (TMUpload ws false) PutObject (Some c) "ChecksumType" p = RAbsent /\
+             cellK (TMUpload ws false) PutObject (Some c) "ChecksumAlgorithm" p =
+               (if p then RUser else RAbsent)).
+Proof.
+  intros ws c Hc. pose proof fo_table as T. apply andb_prop in T. destruct T as [T _].
+  rewrite forallb_forall in T. specialize (T _ (bools_complete ws)).
+  rewrite forallb_forall in T. specialize (T _ Hc).
+  apply andb_prop in T. destruct T as [T1 T2].
+  rewrite forallb_forall in T1, T2.
+  assert (A : forall o p, In o (ops_of (TMUpload ws true)) -> fo_ok ws c o p = true).
+  { intros o p Ho. specialize (T1 _ (bools_complete p)). apply andb_prop in T1. destruct T1 as [T1 _].
+    rewrite forallb_forall in T1. exact (T1 _ Ho). }
+  assert (Hput : In CreateMultipartUpload (ops_of (TMUpload ws true))) by (cbn; tauto).
+  assert (A' : forall o p, In o (ops_of (TMUpload ws true)) ->
+     (cellK (TMUpload ws true) o (Some c) "ChecksumType" p =
+        (if mem "ChecksumType" (SHAPE o) then RLit "FULL_OBJECT" else RAbsent) /\
+      cellK (TMUpload ws true) o (Some c) "ChecksumAlgorithm" p =
+        (if mem "ChecksumAlgorithm" (SHAPE o) then RLit (sdrop 8 c) else RAbsent)) /\
+     (is_full_checksum_name c = true /\ c = ("Checksum" ++ sdrop 8 c)%string /\ In c TM_ALLOWED_UPLOAD_ARGS)).
+  { intros o p Ho. specialize (A _ p Ho). unfold fo_ok in A.
+    apply andb_prop in A. destruct A as [A A5]. apply andb_prop in A. destruct A as [A A4].
+    apply andb_prop in A. destruct A as [A A3]. apply andb_prop in A. destruct A as [A1 A2].
+    apply res_eqb_eq in A1, A2. apply String.eqb_eq in A3. apply mem_In in A5. tauto. }
+  split; [exact (proj2 (A' _ true Hput))|].
+  split; [intros o p Ho; exact (proj1 (A' o p Ho))|].
+  split.
+  - intros mp lf o Hl Ho. specialize (T2 _ (bools_complete mp)). rewrite forallb_forall in T2.
+    specialize (T2 _ Hl). unfold fo_names_ok in T2. rewrite forallb_forall in T2.
+    apply res_eqb_eq. exact (T2 _ Ho).
+  - intros p. specialize (T1 _ (bools_complete p)). apply andb_prop in T1. destruct T1 as [_ T1].
+    unfold fo_single_ok in T1. apply andb_prop in T1. destruct T1 as [T1 T1'].
+    split; now apply res_eqb_eq.
+Qed.
+
+Lemma full_names_complete : forall a, In a TM_ALLOWED_UPLOAD_ARGS ->
+  is_full_checksum_name a = true -> In a FULL_OBJECT_CHECKSUM_ARGS.
+Proof.
+  intros a Ha Hf. pose proof fo_table as T. apply andb_prop in T. destruct T as [_ T].
+  rewrite forallb_forall in T. specialize (T _ Ha). rewrite Hf in T. cbn in T. now apply mem_In.
+Qed.
+
+Lemma upload_src : forall ws mp o t, src (TMUpload ws mp) o t = t.
+Proof. intros ws mp o t. apply src_pass. destruct o; cbn; discriminate. Qed.
+
+Lemma cell_eq : forall m o lf t x, cell m o lf t x = interp (cellK m o lf t (is_some x)) x.
+Proof. reflexivity. Qed.
+
+Lemma full_object_route : forall ws n d calls c,
+  NoDup (keys d) -> route (TMUpload ws true) n d = Some calls -> last_full d = Some c ->
+  forall o kw, In (o, kw) calls ->
+    assoc "ChecksumType" kw =
+      (if mem "ChecksumType" (SHAPE o) then Some (L "FULL_OBJECT") else None) /\
+    assoc "ChecksumAlgorithm" kw =
+      (if mem "ChecksumAlgorithm" (SHAPE o) then Some (L (sdrop 8 c)) else None) /\
+    (forall c' v, In c' FULL_OBJECT_CHECKSUM_ARGS -> assoc c' d = Some v ->
+       assoc c' kw = if mem c' (SHAPE o) && negb (is_upload_part o) then Some (U v) else None).
+Proof.
+  intros ws n d calls c Hn Hr Hlf o kw Hin.
+  destruct (route_pointwise_lemma _ _ _ _ Hn Hr) as (_ & Hl & H).
+  destruct (H _ _ Hin) as (Ho & _ & Hpw).
+  destruct (last_full_some _ _ _ Hlf) as [Hc _].
+  destruct (full_object_cells ws c Hc) as (_ & A & B & _).
+  repeat split.
+  - rewrite Hpw, upload_src, Hlf, cell_eq. destruct (A o (is_some (assoc "ChecksumType" d)) Ho) as [-> _].
+    destruct (mem _ _); reflexivity.
+  - rewrite Hpw, upload_src, Hlf, cell_eq. destruct (A o (is_some (assoc "ChecksumAlgorithm" d)) Ho) as [_ ->].
+    destruct (mem _ _); reflexivity.
+  - intros c' v Hc' Hv. rewrite Hpw, upload_src, Hv, cell_eq. cbn [is_some].
+    destruct (full_object_cells ws c' Hc') as (_ & _ & B' & _).
+    rewrite (B' true _ o Hl Ho). destruct (_ && _); reflexivity.
+Qed.
+
+Lemma crc_cells : forall m o lf p, In o (ops_of m) -> In lf LFS -> crc_ok m o lf p = true.
+Proof.
+  intros m o lf p Ho Hl. pose proof crc_table as T. apply andb_prop in T. destruct T as [T _].
+  rewrite forallb_forall in T. specialize (T _ (all_modes_complete m)).
+  rewrite forallb_forall in T. specialize (T _ Ho).
+  rewrite forallb_forall in T. specialize (T _ Hl).
+  rewrite forallb_forall in T. exact (T _ (bools_complete p)).
+Qed.
+
+Lemma crc32_route : forall ws mp n d calls,
+  NoDup (keys d) -> route (TMUpload ws mp) n d = Some calls -> last_full d = None ->
+  forall o kw, In (o, kw) calls -> mem "ChecksumAlgorithm" (SHAPE o) = true ->
+    assoc "ChecksumAlgorithm" kw =
+      match assoc "ChecksumAlgorithm" d with
+      | Some v => Some (U v)
+      | None => if ws then Some (L "CRC32") else None
+      end.
+Proof.
+  intros ws mp n d calls Hn Hr Hlf o kw Hin Hm.
+  destruct (route_pointwise_lemma _ _ _ _ Hn Hr) as (_ & Hl & H).
+  destruct (H _ _ Hin) as (Ho & _ & Hpw).
+  rewrite Hpw, upload_src, Hlf, cell_eq.
+  pose proof (crc_cells (TMUpload ws mp) o None (is_some (assoc "ChecksumAlgorithm" d)) Ho (or_introl eq_refl)) as C.
+  unfold crc_ok in C. rewrite Hm in C. cbn [is_some negb andb implb] in C. apply res_eqb_eq in C.
+  rewrite C.
+  destruct (assoc "ChecksumAlgorithm" d); [reflexivity|]. destruct ws; reflexivity.
+Qed.
+
+Lemma crc32_never_elsewhere : forall m o lf, In o (ops_of m) -> In lf LFS ->
+  (forall ws mp, m <> TMUpload ws mp) ->
+  cellK m o lf "ChecksumAlgorithm" false = RAbsent.
+Proof.
+  intros m o lf Ho Hl Hm. pose proof (crc_cells m o lf false Ho Hl) as C.
+  destruct m; try (apply res_eqb_eq in C; exact C). exfalso. eapply Hm. reflexivity.
+Qed.
+
+Lemma default_is_crc32 : DEFAULT_CHECKSUM_ALGORITHM = "CRC32".
+Proof. vm_compute. reflexivity. Qed.
